@@ -195,8 +195,10 @@ impl BmpStateDetails<Dumping> {
             BmpMsg::PeerUpNotification(msg) => {
                 let res = self.peer_up(msg);
                 if let BmpState::Dumping(state) = &res.next_state {
-                    let num_pending_eors =
-                        state.details.peer_states.num_pending_eors();
+                    let num_pending_eors = state
+                        .details
+                        .peer_states
+                        .num_peers_with_pending_eors();
                     state.status_reporter.pending_eors_update(
                         state.router_id.clone(),
                         num_pending_eors,
@@ -234,10 +236,14 @@ impl BmpStateDetails<Dumping> {
         update: &UpdateMessage<Bytes>,
     ) -> ControlFlow<ProcessingResult, Self> {
         if let Ok(Some(afi_safi)) = update.is_eor() {
-            if self
+            let all_eors_seen = self
                 .details
-                .remove_pending_eor(pph, (afi_safi).try_into().unwrap())
-            {
+                .remove_pending_eor(pph, (afi_safi).try_into().unwrap());
+            self.status_reporter.pending_eors_update(
+                self.router_id.clone(),
+                self.details.num_peers_with_pending_eors(),
+            );
+            if all_eors_seen {
                 // The last pending EOR has been removed and so this signifies
                 // the end of the initial table dump, if we're in the Dumping
                 // state, otherwise in the Updating state it signifies only
@@ -258,12 +264,6 @@ impl BmpStateDetails<Dumping> {
                 // completed.
                 //
                 // [1]: https://www.rfc-editor.org/errata/eid7133
-                let num_pending_eors = self.details.num_pending_eors();
-                self.status_reporter.pending_eors_update(
-                    self.router_id.clone(),
-                    num_pending_eors,
-                );
-
                 return ControlFlow::Break(Self::mk_state_transition_result(
                     BmpStateIdx::Dumping,
                     BmpState::Updating(self.into()),
@@ -452,6 +452,10 @@ impl PeerAware for Dumping {
 
     fn num_pending_eors(&self) -> usize {
         self.peer_states.num_pending_eors()
+    }
+
+    fn num_peers_with_pending_eors(&self) -> usize {
+        self.peer_states.num_peers_with_pending_eors()
     }
 
     fn add_announced_prefix(
